@@ -93,6 +93,14 @@ CLAIMED = {
         technique="Lean 4 proof (case analysis over versions on generated tables) + full-stack run against a simulated NCP",
         note="partial: the NCP is my simulator (harness/ncpfull.py): it answers the legacy query in the legacy format and ignores frames not in a format it currently accepts; the real serial driver and the thread hand-off (use_thread=True) are not exercised here (C20). ",
     ),
+    "C10": dict(
+        text="Model of the failure paths above the gateway (EZSP.enter_failed_state / connection_lost / close / stop_ezsp / the _command gate) fed by the failure notifications of the C11 gateway model and the C05 link model. Theorems: with an application attached every failure notification (ERROR frame, non-software RSTACK, exhausted ACK budget, connection loss with an error) yields exactly one controller-reset request, stops EZSP and releases the gateway; "
+        "without one nothing is requested; once stopped every new command raises at the gate and nothing is sent, and EZSP stays stopped under further events; close() followed by connection_lost(None) yields no request (the gateway model forwards a loss to EZSP exactly when there was an error); the no-hang bound EZSP_CMD_TIMEOUT + ACK_TIMEOUTS·T_RX_ACK_MAX = 26 s from generated constants with the C05 clamp and C06 timeout theorems. "
+        "Tie: the full real stack (EZSP + Gateway + AshProtocol, use_thread=False) against the byte-level simulated NCP on the virtual clock: six failure kinds × five workload points × application attached or not × failure alone or batched with an ACK in one loop iteration; oracle on the application callback, the wire and call durations; EZSP-level reaction compared with the model.",
+        ref="6 C10",
+        technique="Lean 4 proof (case analysis of the failure paths, composition with C05/C06/C11 theorems) + full-stack failure injection on a virtual clock",
+        note="partial: the proxy thread between Gateway and EZSP (C20) and OS-level port errors (represented only by the exception passed to connection_lost) are not modelled; that no call outlives the bound is observed by the harness on the virtual clock, the theorem gives the bound's ingredients. ",
+    ),
     "C11": dict(
         text="Model of Gateway.reset / wait_for_startup_reset / reset_received / error_received / connection_lost / eof_received over the ASH receiver model, at loop-iteration granularity (batches of primitives that land in one iteration, then the scheduled wake-ups). Theorems: the request writes exactly 1A C0 38 BC 7E and arms RESET_TIMEOUT; for all codes an RSTACK resolves the request iff its code is RESET_SOFTWARE, "
         "any other code is reported as an NCP failure; an ERROR frame with any code is a failure and never a completion; other frames never touch the waiters; an RSTACK zeroes both frame counters from every counter state; TimeoutError exactly at start + RESET_TIMEOUT; an inductive invariant (attribute vs future object vs waiters) holds after every iteration; "
